@@ -1,12 +1,19 @@
 #!/usr/bin/env python3
 # Stores the confirmed seeded changes delivered under /tmp/wt/*/_out (sub-agent worktrees) together with
 # their evaluation logs (/tmp/seed_eval) as /verif/seeded/<id>-<n>/ and writes seeded/RESULTS.md.
-import os, re, json, glob, shutil, subprocess
+import os, re, json, glob, shutil, subprocess, sys
+BASE = '/tmp/wt'
+OFFSET = 0
+for i, a in enumerate(sys.argv):
+    if a == '--base':
+        BASE = sys.argv[i + 1]
+    if a == '--offset':
+        OFFSET = int(sys.argv[i + 1])
 rows = []
-for out in sorted(glob.glob('/tmp/wt/C*/_out')):
-    pid = out.split('/')[3]
-    for n in (1, 2):
-        res = f'/tmp/seed_eval/{pid}-{n}.txt'
+for out in sorted(glob.glob(BASE + '/C*/_out')):
+    pid = out.split('/')[-2]
+    for n in (1, 2, 3):
+        res = f'/tmp/seed_eval/{pid}-{n + OFFSET}.txt'
         if not os.path.exists(res):
             continue
         log = open(res).read()
@@ -33,13 +40,13 @@ for out in sorted(glob.glob('/tmp/wt/C*/_out')):
         m2 = re.search(r'Place(?: this file)? in:?\s*([^\s(,]+)', first)
         d = '.'
         if m2:
-            d = re.sub(r'^/tmp/wt/C\d+/?', '', m2.group(1).strip().rstrip('/')) or '.'
+            d = re.sub(r'^/tmp/wt2?/C\d+/?', '', m2.group(1).strip().rstrip('/')) or '.'
             if d.startswith('/'):
                 d = '.'
         race = ' -race' if '-race' in first else ''
-        dst = f'/verif/seeded/{pid}-{n}'
+        dst = f'/verif/seeded/{pid}-{n + OFFSET}'
         if not confirmed:
-            rows.append((pid, n, 'NOT CONFIRMED', '', '', meta.get('summary', '')[:140]))
+            rows.append((pid, n + OFFSET, 'NOT CONFIRMED', '', '', meta.get('summary', '')[:140]))
             continue
         os.makedirs(dst, exist_ok=True)
         shutil.copy(f'{out}/change{n}.diff', f'{dst}/patch.diff')
@@ -69,14 +76,21 @@ for out in sorted(glob.glob('/tmp/wt/C*/_out')):
             'caught': bool(fired),
         }
         json.dump(meta_out, open(f'{dst}/meta.json', 'w'), indent=1)
-        rows.append((pid, n, 'confirmed', ' '.join(fired) or '—', ' '.join(rules) or '—', (meta.get('summary') or '')[:160].replace('|', '/').replace('\n', ' ')))
+        rows.append((pid, n + OFFSET, 'confirmed', ' '.join(fired) or '—', ' '.join(rules) or '—', (meta.get('summary') or '')[:160].replace('|', '/').replace('\n', ' ')))
+for r in rows:
+    if r[2] != 'confirmed':
+        print('NOT CONFIRMED:', r)
+# RESULTS.md lists every stored seed
+allrows = []
+for d in sorted(glob.glob('/verif/seeded/C*/')):
+    m = json.load(open(d + 'meta.json'))
+    allrows.append((os.path.basename(d.rstrip('/')), ' '.join(m['checks_fired']) or '—', ' '.join(m['rules_fired']) or '—', (m.get('summary') or '')[:160].replace('|', '/').replace('\n', ' ')))
 with open('/verif/seeded/RESULTS.md', 'w') as f:
     f.write('# Seeded changes: which quick checks fire\n\n')
     f.write('Every row: the change compiles, the full suite stays at baseline, the demonstration passes without and fails with it (re-confirmed in a scratch copy).\n\n')
-    f.write('| seed | status | properties whose check fires | rules | change |\n|---|---|---|---|---|\n')
-    for r in rows:
-        f.write(f'| {r[0]}-{r[1]} | {r[2]} | {r[3]} | {r[4]} | {r[5]} |\n')
-    c = sum(1 for r in rows if r[2] == 'confirmed' and r[3] != '—')
-    t = sum(1 for r in rows if r[2] == 'confirmed')
-    f.write(f'\n{c} of {t} confirmed changes are caught.\n')
-print(open('/verif/seeded/RESULTS.md').read())
+    f.write('| seed | properties whose check fires | rules | change |\n|---|---|---|---|\n')
+    for r in allrows:
+        f.write(f'| {r[0]} | {r[1]} | {r[2]} | {r[3]} |\n')
+    c = sum(1 for r in allrows if r[1] != '—')
+    f.write(f'\n{c} of {len(allrows)} confirmed changes are caught.\n')
+print(open('/verif/seeded/RESULTS.md').read()[-300:])
